@@ -1031,6 +1031,14 @@ func (ex *Exec) instr(in ssa.Instruction) {
 	case *ssa.Range:
 		x := ex.val(in.X)
 		ex.vals[in] = Val{T: x.T, Ty: in.X.Type()}
+		if mt, ok := in.X.Type().Underlying().(*types.Map); ok {
+			// ghost: no key of this map has been produced yet
+			c := ex.c
+			kv := c.keyMapVisited(mt)
+			ks := c.sortOf(mt.Key())
+			empty := T(ArraySort(ks, SBool), "((as const %s) false)", ArraySort(ks, SBool))
+			c.heapSet(ex.st, kv, Store(c.heapGet(ex.st, kv), x.T, empty))
+		}
 	case *ssa.Next:
 		ex.doNext(in)
 	case *ssa.Defer:
@@ -1712,8 +1720,65 @@ func (ex *Exec) doNext(in *ssa.Next) {
 	c.assume(Implies(ok, And(Not(Eq(it.T, IntLit("0"))), ex.mapHas(ex.st, mt, it.T, k.T))))
 	v := c.define("next.v", ex.mapVal(ex.st, mt, it.T, k.T))
 	c.assume(Implies(ex.rch, ex.typeFacts(v, mt.Elem())))
-	c.note("%s: map iteration order is arbitrary (each Next yields some present key)", ex.fn.Name())
+	// ghost set of produced keys: each Next yields a key not produced before; when the iteration ends every key
+	// still present has been produced, provided the loop does not insert into a map of this type (Go: entries
+	// created during iteration may be skipped; entries removed before being reached are not produced)
+	kvis := c.keyMapVisited(mt)
+	ks := c.sortOf(mt.Key())
+	hv := c.heapGet(ex.st, kvis)
+	cur := Select(hv, it.T, ArraySort(ks, SBool))
+	c.assume(Implies(And(ex.rch, ok), Not(Select(cur, k.T, SBool))))
+	if !ex.loopInsertsInto(in, mt) {
+		c.fresh++
+		bv := fmt.Sprintf("k!vis%d", c.fresh)
+		has := Select(Select(c.heapGet(ex.st, c.keyMapHas(mt)), it.T, ArraySort(ks, SBool)), Term{bv, ks}, SBool)
+		vis := Select(cur, Term{bv, ks}, SBool)
+		c.assume(Implies(And(ex.rch, Not(ok), Not(Eq(it.T, IntLit("0")))), T(SBool, "(forall ((%s %s)) (! (=> %s %s) :pattern (%s) :pattern (%s)))", bv, ks, has.S, vis.S, has.S, vis.S)))
+	} else {
+		c.note("%s: the loop over the map inserts into a map of the same type: exhaustion of the iteration is not assumed", ex.fn.Name())
+	}
+	c.heapSet(ex.st, kvis, Store(hv, it.T, Ite(ok, Store(cur, k.T, tTrue), cur)))
+	c.note("%s: map iteration order is arbitrary (each Next yields some present key not produced before)", ex.fn.Name())
 	ex.vals[in] = Val{Ty: in.Type(), Tuple: []Val{{T: ok, Ty: boolT}, k, {T: v, Ty: mt.Elem()}}}
+}
+
+// loopInsertsInto: the innermost loop containing the Next instruction may insert into a map of type mt
+// (a MapUpdate on that type, or a call whose frame includes the map).
+func (ex *Exec) loopInsertsInto(in *ssa.Next, mt *types.Map) bool {
+	var li *loopInfo
+	for _, l := range ex.loops {
+		if l.blocks[in.Block()] && (li == nil || len(l.blocks) < len(li.blocks)) {
+			li = l
+		}
+	}
+	if li == nil {
+		return true
+	}
+	kh := ex.c.keyMapHas(mt)
+	for b := range li.blocks {
+		for _, ins := range b.Instrs {
+			switch ins := ins.(type) {
+			case *ssa.MapUpdate:
+				if types.Identical(ins.Map.Type().Underlying(), mt) {
+					return true
+				}
+			case *ssa.Call:
+				if bi, ok := ins.Call.Value.(*ssa.Builtin); ok && (bi.Name() == "delete" || bi.Name() == "len" || bi.Name() == "append" || bi.Name() == "copy" || bi.Name() == "cap") {
+					continue
+				}
+				m := ex.w.instrMods(ex.c, ins, ex)
+				if m.all || m.keys[kh] {
+					return true
+				}
+			case *ssa.Defer, *ssa.Go:
+				m := ex.w.instrMods(ex.c, ins, ex)
+				if m.all || m.keys[kh] {
+					return true
+				}
+			}
+		}
+	}
+	return false
 }
 
 func (ex *Exec) doSelect(in *ssa.Select) {
